@@ -163,3 +163,43 @@ def alloc_sites(F):
                     tgt = a.kids[0].strip()
                     break
         yield tgt, size, c
+
+
+def loop_range(loop, subst=None):
+    """(variable text, lo Lin, hi Lin exclusive) for the recognised counting idioms, else None:
+         for(i = A; i < B; i++)   -> [A, B)        for(i = A; i <= B; i++) -> [A, B+1)
+         for(i = N; i--;)         -> [0, N)        (kalign's reverse idiom)"""
+    if loop.k != "ForStmt":
+        return None
+    init, cond, inc = loop.child("init"), loop.child("cond"), loop.child("inc")
+    if init is None or cond is None:
+        return None
+    var = None
+    start = None
+    if init.k == "DeclStmt":
+        kids = [k for k in init.kids if k.role == "declinit"]
+        if len(kids) != 1:
+            return None
+        var = kids[0].decl["name"]
+        start = lin(kids[0], subst)
+    else:
+        i0 = init.strip()
+        if i0.k == "BinaryOperator" and i0.d["op"] == "=" and i0.kids[0].strip().k == "DeclRefExpr":
+            var = i0.kids[0].strip().d["name"]
+            start = lin(i0.kids[1], subst)
+    if var is None or start is None:
+        return None
+    c = cond.strip(casts=True)
+    if c.k == "UnaryOperator" and c.d["op"] == "--" and c.d.get("postfix") and c.kids[0].strip().text() == var and inc is None:
+        return var, Lin(0), start
+    if inc is None:
+        return None
+    i1 = inc.strip()
+    if not (i1.k == "UnaryOperator" and i1.d["op"] == "++" and i1.kids[0].strip().text() == var):
+        return None
+    if c.k == "BinaryOperator" and c.d["op"] in ("<", "<=") and c.kids[0].strip(casts=True).text() == var:
+        hi = lin(c.kids[1], subst)
+        if hi is None:
+            return None
+        return var, start, hi if c.d["op"] == "<" else hi.add(Lin(1))
+    return None
